@@ -42,7 +42,7 @@ pub fn run_h264(run: &mut Run, pkts: &[Pk], nt: bool) {
 pub fn run_mediaflood(run: &mut Run, kind: u8, count: u32, size: usize, seed: u64) {
     let case = format!("mediaflood {kind} {count} {size} {seed}");
     let mut bytes_in = 0u64;
-    let r = crate::catch(move || {
+    let r = super::catch_ack(move || {
         let mut rng = Rng::new(seed);
         let mut bytes = 0u64;
         super::alloc_reset();
